@@ -98,6 +98,8 @@ package bloomsearch
 // initialisation and never reassigned: they are non-nil and pairwise distinct.
 //@ global ErrEngineStopped != nil && ErrMergeInProgress != nil && ErrPostCommitCleanup != nil && ErrInvalidHash != nil && ErrInvalidConfig != nil
 //@ global ErrEngineStopped != ErrMergeInProgress && ErrMergeInProgress != ErrPostCommitCleanup
+// Only buffers that exist can be checked out of the scan-buffer pool.
+//@ global forall a :: ghost.bufOwned[a] ==> a >= $alloc
 
 //@ ghostvar roundAttempts int  // waiters attempted inside answer rounds (attempts - roundAttempts = direct answers)
 //@ ghostvar flushTriggers int   // calls of triggerFlush
@@ -329,7 +331,14 @@ package bloomsearch
 // The actor's own answers must use the flush context, not the engine context
 // that Stop cancels (precondition, checked at the worker's call sites).
 //@ func (*BloomSearchEngine).processIngestRequest
-//@ props C05 C07
+//@ props C05 C07 C06
+// C06 batch atomicity: every row is serialized and size-checked before anything
+// is buffered, so when a batch is rejected for an unmarshalable or oversize row
+// the buffered counters and the set of partition buffers are exactly as before.
+//@ loop 1 invariant [C06] *bufferedRowCount == old(*bufferedRowCount) && *bufferedBytes == old(*bufferedBytes) && forall key str :: has(partitionBuffers, key) == old(has(partitionBuffers, key))
+//@ loop 2 invariant [C06] *bufferedRowCount == old(*bufferedRowCount) && *bufferedBytes == old(*bufferedBytes) && forall key str :: has(partitionBuffers, key) == old(has(partitionBuffers, key))
+//@ at call sendOptionalWithContext[error]#2 assert [C06] *bufferedRowCount == old(*bufferedRowCount) && *bufferedBytes == old(*bufferedBytes) && forall key str :: has(partitionBuffers, key) == old(has(partitionBuffers, key))
+//@ at call sendOptionalWithContext[error]#3 assert [C06] *bufferedRowCount == old(*bufferedRowCount) && *bufferedBytes == old(*bufferedBytes) && forall key str :: has(partitionBuffers, key) == old(has(partitionBuffers, key))
 //@ requires b != nil && doneChans != nil && bufferedRowCount != nil && bufferedBytes != nil && bufferStartTime != nil
 //@ requires [C05] ctx == b.flushCtx
 //@ modifies heaps, ghost.flushTriggers, ghost.writes, $answers
@@ -495,6 +504,61 @@ package bloomsearch
 //@ ensures err == nil && ok ==> old(s.pos) + 4 <= s.pos && len(row) == s.pos - old(s.pos) - 4
 //@ ensures err == nil && !ok ==> s.pos == old(s.pos) && s.pos == len(s.data)
 //@ ensures err != nil ==> !ok
+
+// Scan-buffer pool (codec_pool.go). bufOwned[a] means backing array a is checked
+// out of the pool: set by getScanBuffer, cleared by putScanBuffer, which
+// requires it — so a buffer can never be returned twice and a buffer that was
+// returned can never be handed back again (C03/C19/C21 buffer typestate).
+// Pool content invariant (assumed of sync.Pool, justified by putScanBuffer's
+// contract: only buffers whose typestate was just cleared are ever Put): what
+// Get returns is not checked out.
+//@ extern (*sync.Pool).Get
+//@ ensures result != nil ==> !ghost.bufOwned[arr(slicein(result))]
+
+//@ func getScanBuffer
+//@ props C19 C03
+//@ ensures arr(result) != 0 ==> !old(ghost.bufOwned[arr(result)])
+//@ exit ghost.bufOwned = arr(result) != 0 ? update(ghost.bufOwned, arr(result), true) : ghost.bufOwned
+//@ modifies ghost.bufOwned, scanBufferPools
+//@ ensures size <= 0 ==> result == nil
+//@ ensures size > 0 ==> len(result) == size
+//@ ensures arr(result) != 0 ==> ghost.bufOwned[arr(result)]
+//@ ensures forall a :: a != arr(result) ==> ghost.bufOwned[a] == old(ghost.bufOwned[a])
+
+//@ func putScanBuffer
+//@ props C19 C03
+//@ requires [C19,C03] arr(buf) == 0 || ghost.bufOwned[arr(buf)]
+//@ entry ghost.bufOwned = arr(buf) != 0 ? update(ghost.bufOwned, arr(buf), false) : ghost.bufOwned
+//@ modifies ghost.bufOwned, scanBufferPools
+//@ ensures arr(buf) != 0 ==> !ghost.bufOwned[arr(buf)]
+//@ ensures forall a :: a != arr(buf) ==> ghost.bufOwned[a] == old(ghost.bufOwned[a])
+
+// Cursor invariant: offsets non-negative, and the chunk in hand (if any) is a
+// buffer the cursor owns.
+//@ pred cursorOK(c *blockFilterCursor) = c.chunkStart >= 0 && c.regionStart >= 0 && c.regionStart <= c.regionEnd && (arr(c.buf) == 0 || ghost.bufOwned[arr(c.buf)])
+
+//@ func (*blockFilterCursor).release
+//@ props C19 C03
+//@ requires c != nil && cursorOK(c)
+//@ modifies c.buf, ghost.bufOwned, scanBufferPools
+//@ ensures c.buf == nil
+
+// readChunkFrom: the read starts at block i's section, stays inside the region,
+// covers block i's section in full; on failure the cursor keeps its old chunk.
+// The cursor invariant holds on every exit (a failed read must not leave the
+// cursor pointing at a buffer that went back to the pool).
+//@ func (*blockFilterCursor).readChunkFrom
+//@ props C19 C24 C01 C03
+//@ requires c != nil && 0 <= i && i < len(c.blocks) && cursorOK(c)
+//@ requires c.blocks[i].BloomFilterSize > 0 && validSection(c.blocks[i], c.regionStart, c.regionEnd)
+//@ modifies c.buf, c.chunkStart, c.chunkShare, heap(byte), ghost.bufOwned, scanBufferPools
+//@ loop 0 invariant i < j && j <= len(c.blocks) && covered >= 1 && covered <= j - i && cursorOK(c) && c.buf == old(c.buf) && c.chunkStart == old(c.chunkStart)
+//@ loop 0 invariant start == c.blocks[i].BloomFilterOffset && start + c.blocks[i].BloomFilterSize <= end && end <= c.regionEnd && c.regionStart <= start
+//@ loop 0 invariant forall a :: ghost.bufOwned[a] == old(ghost.bufOwned[a])
+//@ at call readFullAt#1 assert [C24] c.regionStart <= start && start + len(buf) <= c.regionEnd && len(buf) == end - start
+//@ ensures cursorOK(c)
+//@ ensures [C01,C19] result == nil ==> c.chunkStart == c.blocks[i].BloomFilterOffset && len(c.buf) >= c.blocks[i].BloomFilterSize && c.chunkStart + len(c.buf) <= c.regionEnd
+//@ ensures result != nil ==> c.buf == old(c.buf) && c.chunkStart == old(c.chunkStart)
 
 //@ func (*blockFilterCursor).heldSection
 //@ props C19 C24 C01
